@@ -152,6 +152,54 @@ func TestC12(t *testing.T) {
 					}
 				}
 			}
+			// the same event in a batch that ALSO needs the UTF-8 repair (invalid bytes in a failure message of another
+			// event): the blob that leaves the translator must be both repaired and translated
+			if hasBlobStep(p) && obs == "translated" && (e.Thorough() || e.Rng.IntN(2) == 0) {
+				m, err := buildAlong(g, p, func(f reflect.Value) { f.SetString("local-ns") })
+				if err == nil {
+					mapEventBlobs(m.ProtoReflect(), func(evs []*historypb.HistoryEvent) []*historypb.HistoryEvent {
+						if e.Rng.IntN(2) == 0 {
+							return append([]*historypb.HistoryEvent{failurePadEvent(90)}, evs...)
+						}
+						return append(append([]*historypb.HistoryEvent{}, evs...), failurePadEvent(91))
+					})
+					// reference: what the repair makes of the batch (events pass through the v1.22 schema, the invalid run
+					// becomes one U+FFFD), translated by the descriptor-driven reference
+					ref := proto.Clone(m)
+					legacyRoundTripBlobs(ref.ProtoReflect())
+					mapEventBlobs(ref.ProtoReflect(), func(evs []*historypb.HistoryEvent) []*historypb.HistoryEvent {
+						for _, ev := range evs {
+							if f := ev.GetActivityTaskFailedEventAttributes().GetFailure(); f != nil && f.Message == badUTF8Marker {
+								f.Message = strings.Replace(badUTF8Marker, "~^~^", "\uFFFD", 1)
+							}
+						}
+						return evs
+					})
+					refTranslate(ref.ProtoReflect(), ro)
+					refLeaf, rerr := readLeaf(g, p, ref)
+					if corruptBlobs(m.ProtoReflect()) > 0 {
+						_, terr := tr.TranslateRequest(m)
+						a, b := proto.Clone(m), proto.Clone(ref)
+						okA, okB := canonBlobs(a.ProtoReflect()), canonBlobs(b.ProtoReflect())
+						e.Emit("# repaired-context "+p.opString(), "#")
+						e.Evals++
+						switch {
+						case rerr != nil || refLeaf.Kind() != reflect.String || refLeaf.String() != "remote-ns":
+							e.Count("repair_context_leaf_not_in_v1_22_schema") // the repair drops the field: nothing to translate
+						case terr != nil || !okA || !okB || !proto.Equal(a, b):
+							e.Count("repair_context_wrong")
+							got := "?"
+							if l, lerr := readLeaf(g, p, m); lerr == nil && l.Kind() == reflect.String {
+								got = l.String()
+							}
+							e.Violation(map[string]any{"what": fmt.Sprintf("namespace name at %s (root %s) in a history batch that also needed the UTF-8 repair: the blob leaving the translator holds %q (want \"remote-ns\"), decodes=%v, equals the repaired+translated reference=%v, err=%v",
+								describePath(g, p), g.Types[p.Root].Go, got, okA, okA && okB && proto.Equal(a, b), terr), "ops": []string{op, "# repaired-context"}})
+						default:
+							e.Count("repair_context_ok")
+						}
+					}
+				}
+			}
 		}
 	}
 	// two namespace fields in one message: a name with an identity mapping (or an unmapped one) on one path must not
